@@ -33,6 +33,102 @@ func checkC19(c *Ctx) {
 	c19Encoder(c)
 	c19Decoder(c)
 	e2CheckLayouts(c, "C19-K1", func(name string, f *ssa.Function) bool { return strings.Contains(name, "rfc1035label.Labels)") }, 2)
+	// the decode side of re-emission: what the decoders reject and which fields they set under which condition equal the
+	// reviewed set (E8), and the original bytes are kept for every accepted input
+	e8CheckRejects(c, "C19-K5", func(n string) bool { return strings.Contains(n, "rfc1035label.") }, 1)
+	c19KeepsOriginal(c)
+}
+
+// c19KeepsOriginal: (*Labels).FromBytes stores a private copy of its whole input in `original` on every accepting path
+// (whatever the input looks like): "an unmodified set re-emits its original bytes" starts here.
+func c19KeepsOriginal(c *Ctx) {
+	r := c.R
+	var f *ssa.Function
+	for _, g := range c.P.MethodsNamed("FromBytes") {
+		if n := recvNamed(g); n != nil && n.Obj().Name() == "Labels" && pkgPathOf(g) == lblPkg {
+			f = g
+		}
+	}
+	key := "rfc1035label.Labels.FromBytes: the whole input is kept as the original bytes on every accepting path"
+	if f == nil {
+		r.Undecided("C19-K5", key, "-", "not found")
+		return
+	}
+	in := ssa.Value(f.Params[1])
+	isWholeCopy := func(v ssa.Value) bool {
+		switch x := v.(type) {
+		case *ssa.MakeSlice:
+			if lenOperand(x.Len) != in {
+				return false
+			}
+			// copy(x, input) somewhere in the function
+			ok := false
+			allInstrs(f, func(i ssa.Instruction) {
+				if cl, isC := i.(*ssa.Call); isC && isBuiltinCall(cl.Common(), "copy") && cl.Call.Args[1] == in {
+					dst := cl.Call.Args[0]
+					if dst == v {
+						ok = true
+					}
+					// copy(l.original, data) right after l.original = make(…): the destination is a load of the field just stored
+					if u, isU := dst.(*ssa.UnOp); isU && u.Op == token.MUL {
+						if fa, isFA := u.X.(*ssa.FieldAddr); isFA && fa.X == ssa.Value(f.Params[0]) && derefStruct(fa.X.Type()).Field(fa.Field).Name() == "original" {
+							ok = true
+						}
+					}
+				}
+			})
+			return ok
+		case *ssa.Call:
+			if isBuiltinCall(x.Common(), "append") && len(x.Call.Args) == 2 && x.Call.Args[1] == in {
+				return isEmptyInit(x.Call.Args[0]) || isNilConst(x.Call.Args[0])
+			}
+			if callee := x.Call.StaticCallee(); callee != nil && (funcKey(callee) == "bytes.Clone" || funcKey(callee) == "slices.Clone") && x.Call.Args[0] == in {
+				return true
+			}
+		}
+		return false
+	}
+	var good []*ssa.Store
+	bad := 0
+	allInstrs(f, func(i ssa.Instruction) {
+		st, ok := i.(*ssa.Store)
+		if !ok {
+			return
+		}
+		fa, ok := st.Addr.(*ssa.FieldAddr)
+		if !ok || derefStruct(fa.X.Type()) == nil || derefStruct(fa.X.Type()).Field(fa.Field).Name() != "original" {
+			return
+		}
+		if isWholeCopy(st.Val) {
+			good = append(good, st)
+		} else {
+			bad++
+		}
+	})
+	ok := len(good) >= 1 && bad == 0
+	why := ""
+	if bad > 0 {
+		why = "original is also set to something other than a copy of the whole input"
+	} else if len(good) == 0 {
+		why = "no store of a copy of the whole input into original"
+	}
+	if ok {
+		for _, rt := range returnsOf(f) {
+			if len(rt.Results) != 1 || !isNilConst(rt.Results[0]) {
+				continue
+			}
+			dom := false
+			for _, st := range good {
+				if st.Block() == rt.Block() || st.Block().Dominates(rt.Block()) {
+					dom = true
+				}
+			}
+			if !dom {
+				ok, why = false, "an accepting return is reached without keeping the input: such a set re-encodes from its names (pointers expanded, partial names completed)"
+			}
+		}
+	}
+	r.Check(ok, "C19-K5", key, c.P.pos(f.Pos()), "a store of make(len(input))+copy / append(nil, input...) dominates every nil-error return", why)
 }
 
 func lblFunc(c *Ctx, name string) *ssa.Function {
